@@ -3,6 +3,7 @@ package http
 import (
 	"context"
 	"errors"
+	nethttp "net/http"
 	"os"
 	"strings"
 	"sync"
@@ -10,6 +11,7 @@ import (
 	"github.com/spf13/afero"
 	"github.com/yandex/pandora/components/providers/http/config"
 	"github.com/yandex/pandora/core"
+	"github.com/yandex/pandora/core/aggregator/netsample"
 	"go.uber.org/zap"
 )
 
@@ -156,6 +158,86 @@ func HarnessC08ConstructedProvider() {
 	if !inline && (pipe || !vNative()) {
 		vCheck("D4.ammo.file.closed.once", model.opened == 1 && model.closed == 1)
 	}
+	vObserve("got", int64(got))
+	vReach("end")
+}
+
+// ---- C14 through the constructor: chosencases lists that name the empty tag (the tag of entries
+// written without one), next to ordinary tags, in either order: exactly the entries whose tag is
+// listed are delivered, in file order, with their own tag - with and without preload, from inline
+// uris, a uri file and a uripost file. One pass, no limit (the limit/nothing-chosen cells are the
+// open C14 findings; lists that match no entry are left out here).
+func HarnessC14ConstructedChosenCases() {
+	format := int(vConcretize(vNondetInt("format", 0, 2))) // 0 inline uris, 1 uri file, 2 uripost file
+	tagsOf := []string{"", "a", "b"}
+	var tags [3]string
+	for i := range tags {
+		tags[i] = tagsOf[vConcretize(vNondetInt("tag", 0, 2))]
+	}
+	chosen := [][]string{{""}, {"a"}, {"", "a"}, {"a", ""}, {"b", "a"}, {"", "b", "a"}}[vConcretize(vNondetInt("chosen", 0, 5))]
+	preload := vNondetBool("preload")
+	var want []int
+	for i, t := range tags {
+		for _, c := range chosen {
+			if c == t {
+				want = append(want, i)
+				break
+			}
+		}
+	}
+	vAssume(len(want) > 0)
+	line := func(i int) string {
+		l := "/" + cItoa(i)
+		if tags[i] != "" {
+			l += " " + tags[i]
+		}
+		return l
+	}
+	conf := config.Config{Decoder: config.DecoderURI, Passes: 1, Preload: preload, ChosenCases: chosen}
+	model := &cFs{}
+	switch format {
+	case 0:
+		conf.Uris = []string{line(0), line(1), line(2)}
+	case 1:
+		conf.File = "ammo"
+		model.content = line(0) + "\n" + line(1) + "\n" + line(2) + "\n"
+	case 2:
+		conf.Decoder = config.DecoderURIPost
+		conf.File = "ammo"
+		model.content = "1 " + line(0) + "\nx\n0 " + line(1) + "\n\n2 " + line(2) + "\nyz\n"
+	}
+	p, err := NewProvider(model, conf)
+	vCheck("D0.provider.created", err == nil)
+	if err != nil {
+		return
+	}
+	var runErr error
+	var wg sync.WaitGroup
+	wg.Add(1)
+	go func() {
+		defer wg.Done()
+		runErr = p.Run(context.Background(), core.ProviderDeps{Log: zap.NewNop()})
+	}()
+	got := 0
+	for {
+		a, ok := p.Acquire()
+		if !ok {
+			break
+		}
+		req, sample := a.(interface {
+			Request() (*nethttp.Request, *netsample.Sample)
+		}).Request()
+		if got < len(want) {
+			vCheck("P3.listed.entries.in.file.order", req.URL.Path == "/"+cItoa(want[got]))
+			vCheck("P3.entry.keeps.its.tag", sample.Tags() == tags[want[got]])
+		}
+		got++
+		p.Release(a)
+		vAssume(got <= 6)
+	}
+	wg.Wait()
+	vCheck("P3.exactly.the.listed.entries", got == len(want))
+	vCheck("D2.run.returns.nil", runErr == nil)
 	vObserve("got", int64(got))
 	vReach("end")
 }
